@@ -17,7 +17,7 @@ CLAIMED = {
   "C02": ("exploration", "E-SEQ",
           "bounded-exhaustive fill sequences through PositionManager::update_from_trade and Engine::process against a cash-flow ledger",
           "All sequences of fills (side x qty{1,2,3} x price{90,100,110} x fee{0,0.3}; five magnitude variants; a narrow alphabet going deeper) up to length 4-6 (quick) / 5-7 (thorough), on the PositionManager directly and through the real Engine::process (closed record taken from the audit); after every fill: side/size == sign/|net|, closed record iff net reaches or crosses zero, pro-rata fee on a flip remainder, realised-PnL and fee conservation against the ledger, every fill id on exactly the positions it affected.",
-          "Tolerance 1e-18 x gross cash flow for 'up to decimal rounding'; any cost-basis method satisfying the conservation law is accepted.",
+          "'Up to decimal rounding' = per fill the larger of 1e-18 of the gross cash flow so far and 1e-12 of the gross cash flow of the position the fill acts on (size, closed-record and id rules are exact); any cost-basis method satisfying the conservation law is accepted.",
           "DESIGN.md §3 C02"),
   "C03": ("model_checking", "E-BFS",
           "depth-bounded explicit-state BFS over the real Engine::process with scripted strategy/risk/links",
@@ -47,7 +47,7 @@ CLAIMED = {
   "C08": ("exploration", "E-SEQ",
           "bounded-exhaustive request sequences on the real MockExchange + schedule enumeration through MockExecution/MockExchange::run",
           "All sequences of <=3 (quick) / <=4 (thorough) order requests (side x price x quantity x 3 asset-sharing instruments, limit and unknown-instrument orders) against 54/128 balance-fee configurations on MockExchange::open_order with the ledger read back after every step; plus all operation/latency schedules of up to 3/4 client operations through the real MockExecution client and MockExchange::run on a paused runtime (responses, notifications, queries) against a ledger model written from the statement. Hardened: the ExecutionBuilder::add_mock path, time-in-force variants, 150-600 order runs with full trade queries, many-decimal amounts.",
-          "Market orders only are accepted by the mock; the ledger model follows the statement (spent asset debited, nothing else changes); ids need only be fresh and increasing.",
+          "The statement speaks of market orders: a limit order on a listed instrument may be rejected without effect or handled exactly like a market order at its limit price; unknown instruments must be rejected; the ledger model follows the statement (spent asset debited, nothing else changes); ids need only be fresh.",
           "DESIGN.md §3 C08"),
   "C10": ("exploration", "E-SEQ",
           "bounded-exhaustive engine event histories through the real sync/async audit runners, a twin engine and the real StateReplicaManager, plus derived fault streams",
